@@ -22,6 +22,11 @@ FATAL = [('unresolvable label', 'ld8 undefined_label_xyz'), ('unresolvable label
          ('value its field cannot hold (16 bit)', 'ld16 65536'), ('value its field cannot hold (4 bit)', 'ld4 16'),
          ('value its field cannot hold (4 bit, negative)', 'ld4 0-9'), ('value its field cannot hold (4 bit, negative)', 'ld4 0-15'),
          ('page-local target in another page (a value its field cannot hold)', 'jp4 200'), ('page-local target in another page, one page up', 'jp4 250'),
+         ('data list with a dropped comma (a statement nothing accepts)', '.byte 1 2'), ('data list with a doubled token', '.2byte 7 7'),
+         ('constant whose expression ends in an operator', 'KBAD = 4 +'), ('fill whose count ends in an operator', '.fill 2 +, 1'),
+         ('origin whose expression ends in an operator', '.org 40 +'), ('zero whose count is two numbers', '.zero 2 2'),
+         ('operand code below its configured minimum of 0', 'nb3 0-1'), ('operand code below its configured minimum of 0 (as an expression)', 'nb3 2-5'),
+         ('operand code above its configured maximum', 'nb3 8'),
          ('value its field cannot hold (12 bit)', 'ld12 4096'), ('value its field cannot hold (12 bit, negative)', 'ld12 0-2049')]
 # unresolvable references that need more than one file: names of file scope and local scope are not visible across an #include
 FATAL_FILES = [
@@ -38,7 +43,7 @@ FATAL_FILES_CONTROL = [
     {'main.asm': 'glob1:\nnop\n#include "inc1.asm"\nld16 glob2\n', 'inc1.asm': 'glob2:\nld16 glob1\n_fil1:\nld16 _fil1\n'},
     {'main.asm': '_fil1:\nnop\n#include "inc1.asm"\nld16 _fil1\n', 'inc1.asm': '_fil1:\nld16 _fil1\n'},
 ]
-FATAL_OK_CONTROL = ['bre 100', 'mvx a', "ld8 '!'", 'ld4 15', 'ld4 0-8', 'ld12 4095', 'ld12 0-2048', 'ld8 255', 'ld8 0-128']
+FATAL_OK_CONTROL = ['nb3 0', 'nb3 7', 'bre 100', 'mvx a', "ld8 '!'", 'ld4 15', 'ld4 0-8', 'ld12 4095', 'ld12 0-2048', 'ld8 255', 'ld8 0-128']
 
 
 def observe(case, cli=False):
@@ -348,6 +353,28 @@ def run(chk):
             chk.violation(f'success reported for a program containing {m[0]}: "{m[1]}" at the {m[2]}', c, {'status': 'err'}, {'status': 'ok', 'image': o[3]},
                           {'kind': 'fatal', 'what': m[0]})
     chk.notes['fatal_injections'] = len(fcases)
+    # the same injections through the command line front end: the process exit status is what a caller sees
+    cand = [i for i, m in enumerate(fmeta) if m[0] != 'CONTROL' and m[2] != 'files']
+    pick = rng.sample(cand, min(len(cand), 200 if quick else 1500))
+    # every kind of injection at least once
+    seen = set()
+    for i in cand:
+        if fmeta[i][1] not in seen:
+            seen.add(fmeta[i][1])
+            pick.append(i)
+    pick = sorted(set(pick))
+    pobs = runner.pmap(_obs_cli, [fcases[i] for i in pick])
+    pacc = tlc_accept(chk, [o[0] for o in pobs])
+    for j, i in enumerate(pick):
+        chk.traces += 1
+        o, m = pobs[j], fmeta[i]
+        if j not in pacc:
+            chk.violation(f'fatal injection ({m[0]}) through the command line: observation {o[0]} is not a behaviour of Outcome.tla', fcases[i], None,
+                          {'events': o[0], 'msg': o[2]}, {'kind': 'trace', 'events': '>'.join(o[0])})
+        elif o[1] == 'ok':
+            chk.violation(f'the command line reports success (exit status 0) for a program containing {m[0]}: "{m[1]}" at the {m[2]}', fcases[i], {'status': 'err'},
+                          {'status': 'ok', 'image': o[3]}, {'kind': 'fatal-cli', 'what': m[0]})
+    chk.notes['fatal_injections_cli'] = len(pick)
     # (e) long identifiers and digit strings: the same corruptions must still terminate (pattern matching must not blow up)
     lt = long_token_cases(rng, 300 if quick else 3000)
     lcases = [{'config': carrier_yaml(), 'files': {'main.asm': t}, 'pretty': None, 'timeout': 10.0} for _w, t in lt]
